@@ -3,7 +3,41 @@ package xsync
 import (
 	"context"
 	"errors"
+	"sync"
+	"sync/atomic"
 )
+
+var vHammeredWatchable int
+
+// vHammerWatchable (native replay only): a Value call and a second Set released together with the
+// first Set of a fresh Watchable, many times; reports whether a channel handed out with a cell
+// that is no longer current was left open.
+func vHammerWatchable() bool {
+	if vHammeredWatchable >= 3 {
+		return false
+	}
+	vHammeredWatchable++
+	for trial := 0; trial < 20000; trial++ {
+		var w Watchable[int]
+		var gate int32
+		var wg sync.WaitGroup
+		var ch chan struct{}
+		wg.Add(3)
+		spin := func() {
+			for atomic.LoadInt32(&gate) == 0 {
+			}
+		}
+		go func() { defer wg.Done(); spin(); w.Set(1) }()
+		go func() { defer wg.Done(); spin(); w.Set(2) }()
+		go func() { defer wg.Done(); spin(); _, ch = w.Value() }()
+		atomic.StoreInt32(&gate, 1)
+		wg.Wait()
+		if final := w.p.Load(); final != nil && ch != final.c && !vIsClosed(ch) {
+			return true
+		}
+	}
+	return false
+}
 
 //verif:pkg ./xsync
 // VerifWatchable args: setters (0..2), observer rounds
@@ -73,6 +107,9 @@ func VerifWatchable(setters int, rounds int) {
 		} else {
 			vAssert(vIsClosed(s.ch), "watchable/older-channels-are-closed")
 		}
+	}
+	if vNative() && setters >= 1 {
+		vAssert(!vHammerWatchable(), "watchable/older-channels-are-closed")
 	}
 	if !obsDone && len(seen) > 0 {
 		// the observer is parked: it can only be parked on the final cell's channel
